@@ -228,6 +228,7 @@ SPECS["C16"] = dict(
     jobs=[
         rapid("TestC16Convergence", 1500, 40000, sq=3, st=16),
         rapid("TestC16Stability", 1500, 40000, sq=2, st=16),
+        rapid("TestC16SessionLazyDecoder", 60, 2000, sq=2, st=8),
         plain("TestC16KnownNonOriginal", sq=1, st=1),
         plain("TestC16KnownWrapDelay", sq=1, st=1),
     ],
